@@ -59,11 +59,11 @@ static void add_pieces(const Path& p, const Params& q, ld delta, PieceSet& I, Pi
   }
 }
 
-static std::string judge(Reporter& rep, const Paths& in, const Params& q, const Paths& sol, i64 S, bool verbose) {
+static std::string judge(Reporter& rep, const Paths& in, const Params& q, const Paths& sol, i64 S, bool verbose, ld extra_tol = 0) {
   ld delta = std::fabs(q.delta);
   bool uses_arcs = (q.jt == JT_ROUND || q.et == ET_ROUND);
   ld arc_eff = q.arc > 1e-12 ? (ld)q.arc : delta * 0.002L;
-  ld tol = (uses_arcs ? arc_eff : 0) + 2.0L + 0.001L * delta;
+  ld tol = (uses_arcs ? arc_eff : 0) + 2.0L + 0.001L * delta + extra_tol;
   PieceSet I, U;
   for (auto& p : in) add_pieces(p, q, delta, I, U);
   int sgn = q.rs ? -1 : 1;
@@ -105,7 +105,12 @@ static void check_case(Reporter& rep, const Paths& in, const Params& q, i64 S, b
     else rep.add("mixtures_differing_from_members_side_by_side");
     if (verbose) printf("   members alone, side by side: %s -> %s\n", pstr(side_by_side).c_str(), decided ? "identical" : "DIFFERENT");
   }
-  if (why.empty() && !decided) why = judge(rep, in, q, sol, S, verbose);
+  if (why.empty() && !decided) {
+    why = judge(rep, in, q, sol, S, verbose);
+    // mechanical condition of a known finding: the clause fails with the stated tolerance but holds with one more unit
+    // (the clean-up union merges an intersection vertex with a neighbouring arc vertex and moves a long edge by up to a unit)
+    if (!why.empty() && judge(rep, in, q, sol, S, false, 1.0L).empty()) why = "stroke_tolerance_exceeded_by_under_1_unit: " + why;
+  }
   if (!why.empty()) {
     std::string tag = why.substr(0, why.find(':'));
     // mechanical conditions used by known findings / fixed defects
